@@ -52,6 +52,8 @@ static void build(void) {
     /* a default stack size that is not a multiple of 16 (the library must still hand every function an ABI-aligned stack) */
     add(tier, 2, "Y", "C", 0, 2, 1); P[tier][NP[tier] - 1].oddstack = 1; add(tier, 2, "P", "M", 0, 1, 1); P[tier][NP[tier] - 1].oddstack = 1;
     add(tier, 2, "B", "B", 0, 2, 1); P[tier][NP[tier] - 1].oddstack = 1;
+    /* children on stacks of a size that is not a page multiple, created and joined repeatedly (the block is recycled) next to suspended probe threads */
+    add(tier, 2, "OOO", "Y", 0, 1, 1); add(tier, 2, "OO", "YO", 0, 2, tier ? 2 : 1); add(tier, 3, "OO", "M", "MO", 2, 1);
     /* K: a thread ends while holding a value under a key whose destructor yields (the final switch away happens after a
        suspension inside thread termination, possibly on another worker) */
     add(tier, 2, "K", "Y", 0, 2, tier ? 3 : 2); add(tier, 2, "K", "K", 0, 2, 2); add(tier, 3, "K", "C", "Y", 2, tier ? 2 : 1); add(tier, 2, "KY", "YK", 0, 2, 1); add(tier, 2, "K", "M", 0, 1, 1);
@@ -85,6 +87,7 @@ static void * slow_body(void * a) { myth_yield(); myth_yield(); return a; }
 static void sw_yield(void * a) { (void)a; myth_yield(); }
 static void sw_create_cf(void * a) { myth_thread_t t = myth_create(child_body, a); void * r; myth_join(t, &r); MV_CHECK(r == a, "child result wrong"); }
 static void sw_create_pf(void * a) { myth_thread_t t; h_spawn(V_EX_PARENT_FIRST, &t, child_body, a); void * r; myth_join(t, &r); MV_CHECK(r == a, "parent-first child result wrong"); }
+static void sw_create_odd(void * a) { myth_thread_t t; h_spawn(V_EX_STACK_ODD, &t, child_body, a); void * r; myth_join(t, &r); MV_CHECK(r == a, "child (20000-byte stack) result wrong"); }
 static void sw_mutex(void * a) { (void)a; myth_mutex_lock(&mtx); myth_yield(); myth_mutex_unlock(&mtx); }
 static void sw_barrier(void * a) { (void)a; myth_barrier_wait(&bar); }
 static void sw_condwait(void * a) { (void)a; myth_mutex_lock(&cm); while (!cflag) myth_cond_wait(&cv, &cm); myth_mutex_unlock(&cm); }
@@ -115,6 +118,7 @@ static void do_op(int me, char op, int idx) {
   case 'B': fn = sw_barrier; kind = 4; break;        case 'W': fn = sw_condwait; kind = 5; break;
   case 'w': fn = sw_condsig; kind = 5; break;        case 'U': fn = sw_uwait; kind = 6; break;
   case 'u': fn = sw_usig; kind = 6; break;           case 'K': fn = sw_keyed_child; kind = 1; break;
+  case 'O': fn = sw_create_odd; kind = 1; break;
   default: fn = sw_join_unfinished; kind = 7; break;
   }
   int w0 = mv_worker();
